@@ -9,6 +9,7 @@ From Coq Require Import List NArith ZArith Bool.
 Import ListNotations.
 From Mos Require Import model.I64 Gen.BinOps model.Expr Gen.PassLoop model.PassLoop spec.PassLoopSpec Gen.C06Sites model.Sites
   proofs.PassLoopProofs proofs.SitesProofs model.Spans proofs.SpansProofs.
+From Mos Require model.Nom model.Parser proofs.ParserTotalProofs model.SourceMap model.Listing spec.ListingSpec proofs.StagesTotal.
 Open Scope Z_scope.
 
 (* ================================================================== the pass loop *)
@@ -241,10 +242,13 @@ Theorem C06_guard_enter_spec : forall d,
   (parser_enter d = SOk (S d) <-> (d < 64)%nat) /\ (parser_enter d = SDiag diag_nested_too_deep <-> (64 <= d)%nat).
 Proof. exact guard_enter_spec. Qed.
 Print Assumptions C06_guard_enter_spec.
-(* a guarded walk over ANY tree of containers (any depth, any width) never works deeper than 64 levels *)
-Theorem C06_walk_depth_bounded : forall fuel d t, (d <= 64)%nat -> (walk_depth fuel d t <= 64)%nat.
-Proof. exact walk_depth_bounded. Qed.
-Print Assumptions C06_walk_depth_bounded.
+(* the code generator's walk over ANY tree of containers (any depth, any branching -- e.g. a macro that invokes itself
+   twice per level), with the guard's per-pass state: never deeper than 64 levels, at most 65536 containers entered, at
+   most one diagnostic; after it nothing descends any more *)
+Theorem C06_walk_pass_bounded : forall fuel t,
+  0 <= g_entered (walk_pass fuel t) <= 65536 /\ (g_max_depth (walk_pass fuel t) <= 64)%nat /\ (g_reported (walk_pass fuel t) <= 1)%nat.
+Proof. exact walk_pass_bounded. Qed.
+Print Assumptions C06_walk_pass_bounded.
 (* a failing parse of n nested parentheses / argument lists is attempted once per level on the current source ... *)
 Theorem C06_parse_attempts_linear : forall n,
   parse_attempts factor_attempts_per_level n = 1%nat /\ parse_attempts arg_list_attempts_per_level n = 1%nat.
@@ -295,6 +299,30 @@ Theorem C06_add_file_disjoint : forall files len f' files',
   add_file files len = (files', f') -> disjoint files'.
 Proof. exact add_file_disjoint. Qed.
 Print Assumptions C06_add_file_disjoint.
+
+(* ================================================================== the other stages, over the models of C05 and C11 *)
+(* parser (model/Nom.v + model/Parser.v, the whole grammar): from any state, on any input, no grammar function yields a
+   panic; in particular the top-level rule on every text *)
+Theorem C06_parser_never_panics : forall s,
+  snd (Parser.source_file Nom.st0 (Nom.mkIn 0%N s)) <> Nom.Abort Nom.Panic.
+Proof. exact ParserTotalProofs.source_file_never_panics. Qed.
+Print Assumptions C06_parser_never_panics.
+(* parse_with_instance (`all_consuming(source_file)(input).ok().unwrap()`) panics exactly when the statement loop
+   reports nom's no-progress error, i.e. a statement / error token was accepted without consuming anything -- the exact
+   guard; that no statement alternative does that is not proved here (partial) *)
+Theorem C06_parse_panics_iff_partial : forall s,
+  Parser.parse s = Parser.ParsePanic <->
+  snd (Nom.many0 (Nom.alt Parser.statement Parser.error) Nom.st0 (Nom.mkIn 0%N s)) = Nom.Err.
+Proof. exact ParserTotalProofs.parse_panics_iff. Qed.
+Print Assumptions C06_parse_panics_iff_partial.
+(* listing writer (model/Listing.v): for every well-formed emission (C11's invariant of what the code generator leaves
+   behind), spans inside their files and n > 0 bytes per line: no panic (n = 0 is rejected before the writer runs
+   since d1e6ad5) *)
+Theorem C06_listing_total : forall cm segs es n f,
+  ListingSpec.wf_emission segs es -> ListingSpec.spans_ok cm es -> (0 < n)%nat ->
+  Listing.to_listing_file cm (map fst es) segs n f <> SourceMap.Panic.
+Proof. exact StagesTotal.listing_file_total. Qed.
+Print Assumptions C06_listing_total.
 
 (* non-vacuity *)
 Example C06_example_pc :
